@@ -113,18 +113,10 @@ func (m *Message) readHeader(r io.Reader, buf *bytes.Buffer) (cmd *dict.Command,
 }
 
 func (m *Message) readBody(r io.Reader, buf *bytes.Buffer, cmd *dict.Command, stream uint) error {
-	var err error
-	var n int
 	if m.Header.MessageLength < HeaderLength {
 		return fmt.Errorf("Invalid message length: %d bytes", m.Header.MessageLength)
 	}
-	b := readerBufferSlice(buf, int(m.Header.MessageLength-HeaderLength))
-	msr, isMulti := r.(MultistreamReader)
-	if isMulti {
-		n, _, err = msr.ReadAtLeast(b, len(b), stream)
-	} else {
-		n, err = io.ReadFull(r, b)
-	}
+	b, n, err := readBodyBytes(r, buf, int(m.Header.MessageLength-HeaderLength), stream)
 	if err != nil {
 		return fmt.Errorf("readBody Error: %v, %d bytes read", err, n)
 	}
@@ -141,6 +133,51 @@ func (m *Message) readBody(r io.Reader, buf *bytes.Buffer, cmd *dict.Command, st
 		return err
 	}
 	return nil
+}
+
+// bodyChunkLength is how far the buffer of a large message body is grown
+// ahead of the bytes that have actually been received.
+const bodyChunkLength = 64 << 10
+
+// readBodyBytes reads the l bytes of a message body from r. A body that is
+// larger than bodyChunkLength is read piece by piece, so that the memory used
+// grows with the data received and not with the length the header claims.
+func readBodyBytes(r io.Reader, buf *bytes.Buffer, l int, stream uint) (b []byte, n int, err error) {
+	msr, isMulti := r.(MultistreamReader)
+	readFull := func(p []byte) (int, error) {
+		if isMulti {
+			k, _, e := msr.ReadAtLeast(p, len(p), stream)
+			return k, e
+		}
+		return io.ReadFull(r, p)
+	}
+	if l <= bodyChunkLength {
+		b = readerBufferSlice(buf, l)
+		n, err = readFull(b)
+		return b, n, err
+	}
+	b = make([]byte, 0, bodyChunkLength)
+	for len(b) < l && err == nil {
+		k := l - len(b)
+		if k > bodyChunkLength {
+			k = bodyChunkLength
+		}
+		if cap(b)-len(b) < k {
+			// Double the buffer, but never beyond the declared length.
+			c := 2 * cap(b)
+			if c > l {
+				c = l
+			}
+			nb := make([]byte, len(b), c)
+			copy(nb, b)
+			b = nb
+		}
+		b = b[:len(b)+k]
+		var got int
+		got, err = readFull(b[len(b)-k:])
+		n += got
+	}
+	return b, n, err
 }
 
 func (m *Message) maxAVPsFor(cmd *dict.Command) int {
